@@ -180,8 +180,8 @@ Inductive pkt :=
                                         token, wrong remote during the handshake *)
 | POrdinary                          (* authenticated, processed, no lifecycle effect *)
 | PEstablish                         (* authenticated; completes the handshake *)
-| PCloseData (r : reason)            (* close frame in a 1-RTT / 0-RTT payload: [process_payload] *)
-| PCloseEarly (r : reason)           (* close frame in Initial / Handshake: [process_early_payload] *)
+| PCloseData (r : close_reason)      (* close frame in a 1-RTT / 0-RTT payload: [process_payload] *)
+| PCloseEarly (r : close_reason)     (* close frame in Initial / Handshake: [process_early_payload] *)
 | PTransportError (code : Z) (authed : bool)
                                      (* [Err(TransportError)]: from [decrypt_packet] (authed = false:
                                         reserved bits, key update error, integrity limit) or from
@@ -196,6 +196,10 @@ Definition authed (p : pkt) : bool :=
   | _ => true
   end.
 
+(** [ConnectionError::from(frame::Close)] *)
+Definition peer_reason (c : close_reason) : reason :=
+  match c with CApp x => RAppClosed x | CTransport x => RConnClosed x end.
+
 (** [process_decrypted_packet] (+ the [stateless_reset] / decrypt arms of [handle_packet]):
     new state and the [Result]. *)
 Definition process (s : state) (p : pkt) : state * option reason :=
@@ -208,13 +212,13 @@ Definition process (s : state) (p : pkt) : state * option reason :=
   | PCloseData r =>
       match st s with
       | Handshake | Established =>
-          (set_close (set_st (set_error s (Some r)) Draining) true, None)
+          (set_close (set_st (set_error s (Some (peer_reason r))) Draining) true, None)
       | Closed _ => (set_st s Draining, None)
       | _ => (s, None)
       end
   | PCloseEarly r =>
       match st s with
-      | Handshake | Established => (set_st (set_error s (Some r)) Draining, None)
+      | Handshake | Established => (set_st (set_error s (Some (peer_reason r))) Draining, None)
       | Closed _ => (set_st s Draining, None)
       | _ => (s, None)
       end
@@ -403,12 +407,17 @@ Fixpoint count (f : out -> bool) (l : list out) : Z :=
     state was: an error result (stateless reset, transport error from [decrypt_packet] or from
     [frame::Iter::new] in the Closed arm) that arrives while the connection is already closed is
     reported although the close was local / already reported, and can even move a Drained
-    connection back to Closed. *)
+    connection back to Closed.
+    Excluded with it (second disjunct of [guard]): [PacketBuilder::new] finding the
+    confidentiality limit already EXCEEDED while building the close packet of an Initial /
+    Handshake space ([kill] then records AEAD_LIMIT_REACHED as a new error). That needs more
+    than 2^23 packets sent under handshake keys and is not reachable by any peer behaviour. *)
 Definition err_result (p : pkt) : bool :=
   match p with PTransportError _ _ | PReset => true | _ => false end.
 Definition guard (s : state) (o : op) : bool :=
   match o with
   | OpPacket _ p _ _ _ => negb (err_result p && is_closed (st s))
+  | OpTransmit _ e => negb ((conf e =? 2) && is_closed (st s))
   | _ => true
   end.
 Fixpoint guarded (s : state) (h : list op) : bool :=
